@@ -151,12 +151,16 @@ def run(ctx):
     for mask, style, osh, alg in fam:
         M = [m for i, m in enumerate(UNIVERSE) if mask >> i & 1]
         cases.append(({'kind': 'family', 'M': M, 'style': style, 'openssh': osh, 'algs': [alg]}, STYLES[style](M), None))
-    for _ in range(ctx.scale(250, 3000)):
+    for k_ in range(ctx.scale(250, 3000)):
         script = [r.choice([None, None, 512, 1024, 1536, 2047, 2048, 2049, 3071, 3072, 4096, 8192, r.randint(1, 9000)]) for _ in range(20)]
+        if k_ % 5 == 0:     # first pass ends on the 2048 fallback, then the follow-up probe is refused / answered
+            script = [2048] * 6 + [r.choice([None, None, 3072, 4096, 2048, 1024])] + [None] * 13
         it = iter(script)
         algs = r.choice([[SHA1], [SHA256], [SHA1, SHA256], [SHA256, SHA1], ['curve25519-sha256', SHA256]])
         ra = r.choice([None, None, None, 1, 2, 3, 5, 9])
-        cases.append(({'kind': 'scripted', 'script': script, 'openssh': r.random() < 0.6, 'algs': algs, 'refuse_after': ra},
+        if k_ % 5 == 0:
+            algs, ra = r.choice([[SHA1], [SHA256]]), None
+        cases.append(({'kind': 'scripted', 'script': script, 'openssh': (k_ % 5 == 0) or r.random() < 0.6, 'algs': algs, 'refuse_after': ra},
                       (lambda it_: (lambda mn, pf, mx: next(it_, None)))(it), ra))
     lines, expect = [], []
     nonmono = []
@@ -207,6 +211,14 @@ def run(ctx):
                                      'expected': 'a size the server actually handed out, or none', 'how': 'harness/props/C12.py run_real(): GEXTest.run over fakenet'})
                 if got != want:
                     nonmono.append((seg_a, got))
+                # … and, for any server: once the OpenSSH follow-up probe (2048, 3072, 4096) was made, what is reported is its answer, or nothing if it was
+                # refused / stalled / garbage — never the fallback 2048 of the first pass
+                if desc['openssh'] and seg_q and seg_q[-1] == (2048, 3072, 4096) and len(seg_q) > 1:
+                    ans = seg_a[-1] if len(seg_a) == len(seg_q) else None
+                    want_f = ans if isinstance(ans, int) and ans > 0 else None
+                    if got != want_f:
+                        failures.append({'sig': {'kind': 'followup_probe_result_ignored'}, 'input': desc, 'observed': {'reported': got, 'requests': seg_q, 'answers': seg_a},
+                                         'expected': {'reported': want_f}, 'how': 'harness/props/C12.py run_real(): GEXTest.run over fakenet'})
             elif got != want or got != full_sequence_expectation(STYLES[desc['style']](desc['M']), desc['openssh'])[0]:
                 want = full_sequence_expectation(STYLES[desc['style']](desc['M']), desc['openssh'])[0]
                 failures.append({'sig': {'kind': 'wrong_modulus_reported'}, 'input': desc, 'observed': {'reported': got, 'requests': seg_q, 'answers': seg_a},
